@@ -93,8 +93,9 @@ type Op struct {
 	Proof  int
 	PA, PB int
 	// perturbations of an update: the caller's context and a storage fault during the call
-	Ctx   int // ctxLive / ctxCancelled / ctxExpired
-	Fault int // faultNone / faultCommit / faultExec / faultQuery / faultBegin (first such call of the update)
+	Ctx      int // ctxLive / ctxCancelled / ctxExpired
+	Fault    int // faultNone / faultCommit / faultExec / faultQuery / faultBegin / faultRows (first such call of the update)
+	FaultPos int // faultRows: the Next call that fails (0 = before the first row, 1 = after it)
 	// cosignature tamper selection and assorted salt
 	Tamper int
 	Salt   int
@@ -189,6 +190,10 @@ func genUpdate(t *rapid.T, o *Op) {
 		o.Ctx = rapid.IntRange(ctxCancelled, ctxExpired).Draw(t, "deadCtx")
 	} else if rapid.IntRange(0, 9).Draw(t, "fault?") == 0 {
 		o.Fault = rapid.IntRange(faultCommit, nFaults-1).Draw(t, "fault")
+		if rapid.IntRange(0, 2).Draw(t, "readFault?") == 0 {
+			o.Fault = faultRows // a transient read fault is the one that leaves the write path intact
+		}
+		o.FaultPos = rapid.IntRange(0, 3).Draw(t, "faultPos") / 3
 	}
 	if rapid.IntRange(0, 9).Draw(t, "crossLogPreset") == 0 {
 		// the very bytes another log's update was accepted with, now addressed to this log (before or
@@ -665,7 +670,7 @@ func checkSeq(t *testing.T, c SeqCase) harness.Verdict {
 			}
 			armed := o.Fault != faultNone && s.plan != nil
 			if armed {
-				s.plan.arm(o.Fault)
+				s.plan.arm(o.Fault, o.FaultPos)
 			}
 			r := s.updateCtx(ctx, id, cd.raw, proof)
 			cancel()
